@@ -16,7 +16,6 @@ fn apply1(ctx: &mut Minimal, def: &str, dir: Direction, c: [f64; 4]) -> Result<[
 //@n {"id":"C09.N.ellipsoid.table","props":["C09"],"tier":"quick","bound":"every row of the built-in ellipsoid table (exhaustive), as a named ellipsoid and as the ellps= argument of cart applied in both directions","text":"every name in the built-in ellipsoid table can be instantiated (no panic, no error) and used by an operator"}
 #[test]
 fn verif_native_c09_ellipsoid_table() {
-    std::panic::set_hook(Box::new(|_| {}));
     let mut fails = Vec::new();
     let mut n = 0;
     for row in super::constants::ELLIPSOID_LIST.iter() {
@@ -43,7 +42,6 @@ fn verif_native_c09_ellipsoid_table() {
             Err(_) => fails.push(format!("cart ellps={name} panics")),
         }
     }
-    let _ = std::panic::take_hook();
     assert!(n >= 40, "table enumerated");
     assert!(fails.is_empty(), "C09.N.ellipsoid.table: {} of {} rows fail, first: {:?}", fails.len(), n, &fails[..fails.len().min(5)]);
 }
